@@ -99,6 +99,17 @@ func forcedData() []c01Prog {
 		gen.Seq(&gen.Block{Kind: "sub", Default: -1, Kids: []*gen.Block{gen.T("w1")}}, read("w1", ">"))}}, read("w1", "==")))
 	add("xor-branch", gen.Seq(first(), &gen.Block{Kind: "xor", Default: 1, Kids: []*gen.Block{gen.T("w1"), gen.T("w2")},
 		Conds: []*gen.Cond{{Kind: "var", Var: "v1", Op: ">", Val: 0}, nil}, Ends: []bool{false, false}}, read("w1", ">"), read("w2", ">")))
+	// the same through data objects: a task stores a data output (DoWithObjects), a later condition looks the
+	// data object up (getDataObject); with and without an embedded sub-process elsewhere in the process (every
+	// sub-process scope gets a data locator of its own)
+	readObj := func(o string, op string) *gen.Block {
+		return &gen.Block{Kind: "xor", Default: 1, Kids: []*gen.Block{gen.T(), gen.T()},
+			Conds: []*gen.Cond{{Kind: "obj", Var: o, Op: op, Val: 0}, nil}, Ends: []bool{false, false}}
+	}
+	add("object", gen.Seq(first(), gen.T("do1"), readObj("do1", ">")))
+	add("object-sub-behind", gen.Seq(first(), gen.T("do1"), readObj("do1", ">"), &gen.Block{Kind: "sub", Default: -1, Kids: []*gen.Block{gen.T()}}))
+	add("object-sub-before", gen.Seq(&gen.Block{Kind: "sub", Default: -1, Kids: []*gen.Block{gen.T()}}, gen.T("do1"), readObj("do1", ">"), gen.T("do1"), readObj("do1", "==")))
+	add("object-in-sub", gen.Seq(first(), &gen.Block{Kind: "sub", Default: -1, Kids: []*gen.Block{gen.Seq(gen.T("do1"), readObj("do1", ">"))}}, readObj("do1", ">")))
 	add("condtask", gen.Seq(first(), &gen.Block{Kind: "sub", Default: -1, Kids: []*gen.Block{gen.T("w1")}},
 		&gen.Block{Kind: "condtask", Default: -1, Kids: []*gen.Block{gen.T(), gen.T(), gen.T()},
 			Conds: []*gen.Cond{nil, {Kind: "var", Var: "w1", Op: ">", Val: 0}, {Kind: "var", Var: "w1", Op: "==", Val: 0}}}))
@@ -175,6 +186,36 @@ func loopVarProgs(rng *fw.Rng, n, depth, budget int) []c01Prog {
 		ast := gen.Seq(gen.T(), body, gen.T())
 		out = append(out, c01Prog{Name: fmt.Sprintf("loopvar:rnd%d", i), AST: ast, NV: nv, Family: familyOf(ast), LoopVar: true})
 	}
+	return out
+}
+
+// emptyBranchProgs: blocks one of whose branches has no node at all - a sequence flow straight from the split to
+// the merge - at every position among the branches, for parallel, exclusive and inclusive blocks, alone, nested
+// and inside a sub-process and a loop.
+func emptyBranchProgs() []c01Prog {
+	var out []c01Prog
+	cv := func(v string) *gen.Cond { return &gen.Cond{Kind: "var", Var: v, Op: ">", Val: 0} }
+	add := func(name string, ast *gen.Block) {
+		out = append(out, c01Prog{Name: "empty:" + name, AST: ast, NV: 2, Family: "empty:" + name})
+	}
+	for pos := 0; pos < 3; pos++ {
+		kids := []*gen.Block{gen.T(), gen.T(), gen.T()}
+		kids[pos] = gen.Empty()
+		and := &gen.Block{Kind: "and", Default: -1, Kids: kids}
+		add(fmt.Sprintf("and-pos%d", pos), gen.Seq(gen.T(), and, gen.T()))
+		add(fmt.Sprintf("and-pos%d-sub", pos), gen.Seq(gen.T(), &gen.Block{Kind: "sub", Default: -1, Kids: []*gen.Block{and}}, gen.T()))
+		add(fmt.Sprintf("and-pos%d-loop", pos), gen.Seq(gen.T(), &gen.Block{Kind: "loop", Default: -1, Var: "cntE", Bound: 2, Kids: []*gen.Block{and}}, gen.T()))
+		for _, kind := range []string{"xor", "or"} {
+			k2 := []*gen.Block{gen.T(), gen.T(), gen.T()}
+			k2[pos] = gen.Empty()
+			conds := []*gen.Cond{cv("v0"), cv("v1"), nil}
+			b := &gen.Block{Kind: kind, Default: 2, Kids: k2, Conds: conds, Ends: []bool{false, false, false}}
+			add(fmt.Sprintf("%s-pos%d", kind, pos), gen.Seq(gen.T(), b, gen.T()))
+		}
+	}
+	add("and-two-empty", gen.Seq(gen.T(), &gen.Block{Kind: "and", Default: -1, Kids: []*gen.Block{gen.Empty(), gen.T(), gen.Empty()}}, gen.T()))
+	add("and-nested", gen.Seq(gen.T(), &gen.Block{Kind: "and", Default: -1, Kids: []*gen.Block{gen.T(),
+		&gen.Block{Kind: "and", Default: -1, Kids: []*gen.Block{gen.T(), gen.Empty()}}}}, gen.T()))
 	return out
 }
 
@@ -316,6 +357,13 @@ func c01Cases(tier string, seed uint64) []fw.Case {
 		cs = append(cs, c01CasesFor(loopVarProgs(lrng, 400, 4, 20), lrng, 4, 12, 2, nil)...)
 	} else {
 		cs = append(cs, c01CasesFor(loopVarProgs(lrng, 40, 3, 12), lrng, 2, 3, 1, nil)...)
+	}
+	// branches without any node
+	erng := fw.NewRng(seed, "C01empty")
+	if tier == "thorough" {
+		cs = append(cs, c01CasesFor(emptyBranchProgs(), erng, 4, 12, 3, nil)...)
+	} else {
+		cs = append(cs, c01CasesFor(emptyBranchProgs(), erng, 4, 4, 1, nil)...)
 	}
 	// loops closed by conditional flows on a task
 	trng := fw.NewRng(seed, "C01taskloop")
